@@ -326,7 +326,7 @@ func (x *Exec) indexExpr(e *ast.IndexExpr, st *State) Val {
 	}
 	x.safe(st, "index", And(Le(IntLit(0), idx.T), Lt(idx.T, slLen(base.T))), e)
 	_, h := x.elemHeapOf(st, base.Ty.Elem)
-	ev := Select(st.sel(h, slReg(base.T)), Add(slOff(base.T), idx.T))
+	ev := Select(st.sel(h, slReg(base.T)), IdxAdd(slOff(base.T), idx.T))
 	st.assume(x.typeInv(ev, base.Ty.Elem, st.alloc))
 	return Val{T: ev, Ty: base.Ty.Elem}
 }
